@@ -363,7 +363,12 @@ class Units(object):
             pi_expo = 0
 
         if name is None:
-            name = Units.name_power(self.name, 0.5)
+            try:
+                name = Units.name_power(self.name, 0.5)
+            except ValueError:
+                # The name has no square root although the units do, as with
+                # "ster" or "m*km"; a name is then constructed when needed
+                name = None
 
         return Units(exponents, (numer, denom, pi_expo), name)
 
